@@ -118,7 +118,7 @@ interrupt[3]:
 }
 "# } else { r#"
 script 5 script0 {
-    ins_3(@blob="01000000");
+    FIRST
     $REG[10000] = 2;
     loop {
 10:
@@ -144,6 +144,9 @@ entry {
 }
 "#;
     let scripts1 = if game == Game::Th06 { "script script2 {\n    ins_15();\n}\n" } else { "script -3 script2 {\n20:\n    ins_1();\n}\n" };
+    let scripts0 = scripts0.replace("FIRST", if game >= Game::Th13 { "ins_6(@blob=\"01000000\");" } else { "ins_3(@blob=\"01000000\");" });
+    // (a TH06 file whose non-final entry has no THTX cannot be read back by truth: its last script has no end bound)
+    if game == Game::Th06 && !thtx { return format!("{entry0}{scripts0}"); }
     format!("{entry0}{scripts0}{entry1}{scripts1}")
 }
 
@@ -182,9 +185,9 @@ fn std_src(game: Game) -> String {
 }}
 "#);
     let script = if game == Game::Th06 {
-        "script main {\n    ins_0(1.0, 2.0, 3.0);\n10:\n    ins_3(@blob=\"01000000 02000000 03000000\");\ninterrupt[2]:\n30:\n    ins_2(1.0, 2.0, 3.0);\n}\n"
+        "script main {\n    ins_0(1.0, 2.0, 3.0);\n10:\n    ins_3(@blob=\"01000000 02000000 03000000\");\n30:\n    ins_2(1.0, 2.0, 3.0);\n}\n"
     } else if old {
-        "script main {\n    ins_0(1.0, 2.0, 3.0);\n    loop {\n10:\n        ins_2(@blob=\"01000000 02000000 03000000\");\n+20:\n    }\n}\n"
+        "script main {\n    ins_0(1.0, 2.0, 3.0);\n    loop {\n10:\n        ins_2(@blob=\"01000000 00000000 00000000\");\n+20:\n    }\n}\n"
     } else {
         "script main {\n    ins_2(1.0, 2.0, 3.0);\n    loop {\n10:\n        ins_3(@blob=\"01000000 02000000 03000000 04000000 05000000\");\n+20:\n        ins_0();\n    }\n}\n"
     };
@@ -261,7 +264,7 @@ script main {
 10:
     ins_3("abc");
     ins_7(2, "e01.png");
-    ins_9(#ff8040c0);
+    ins_9(0xff8040c0);
     ins_0();
 }
 "#;
@@ -278,25 +281,26 @@ entry { stage: 10, scene: 6, player: 0, unknown_1: 0, unknown_2: 0, point_1: 0, 
 "#;
 
 fn ecl_src(game: Game) -> String {
-    let tl0 = r#"
-script timeline0 {
-    ins_0(@arg0=1, @blob="00000000 0000803f 00000040 04000300 02000000");
-10:
-    ins_10(@arg0=0, @blob="01000000 02000000");
-}
-"#;
-    let tl1 = "script timeline1 {\n7:\n    ins_10(@arg0=4, @blob=\"01000000 02000000\");\n}\n";
-    let (reg, call) = match game {
-        Game::Th06 => ("$REG[-10001]", "ins_35(sub1, 3, 1.5);"),
-        Game::Th07 => ("$REG[10000]", "ins_41(sub1);"),
-        _ => ("$REG[10000]", "ins_52(sub1);"),
+    let tl0 = match game {
+        Game::Th06 => "script timeline0 {\n    ins_0(@arg0=1, @blob=\"00000000 0000803f 00000040 04000300 02000000\");\n10:\n    ins_10(@arg0=0, @blob=\"01000000 02000000\");\n}\n",
+        Game::Th07 => "script timeline0 {\n    ins_0(@arg0=1, @blob=\"00000000 0000803f 00000040 04000000 03000000 02000000\");\n10:\n    ins_10(@arg0=0, @blob=\"01000000 02000000\");\n}\n",
+        _ => "script timeline0 {\n    ins_0(@blob=\"01000000 0000803f 00000040 04000000 03000000 02000000\");\n10:\n    ins_10(@blob=\"01000000\");\n}\n",
+    };
+    let tl1 = match game {
+        Game::Th07 => "script timeline1 {\n7:\n    ins_10(@arg0=4, @blob=\"01000000 02000000\");\n}\n",
+        _ => "script timeline1 {\n7:\n    ins_10(@blob=\"01000000\");\n}\n",
+    };
+    let (reg, nop, call) = match game {
+        Game::Th06 => ("$REG[-10001]", "ins_1(@blob=\"00000000\");", "ins_35(sub1, 3, 1.5);"),
+        Game::Th07 => ("$REG[10000]", "ins_1();", "ins_41(sub1);"),
+        _ => ("$REG[10000]", "ins_1();", "ins_52(sub1);"),
     };
     let subs = format!(r#"
 void sub0() {{
     {reg} = 3;
 top:
 5:
-    ins_1(@blob="00000000");
+    {nop}
     {reg} = {reg} - 1;
     if ({reg} != 0) goto top;
     {call}
@@ -772,8 +776,24 @@ fn squash_digits(s: &str) -> String {
     out
 }
 
+/// replace the text between the first `open` and the LAST `close` by `<q>` (quoted paths may contain anything)
+fn squash_quoted(s: &str, open: &str, close: &str) -> String {
+    if let Some(a) = s.find(open) {
+        let rest = &s[a + open.len()..];
+        if let Some(b) = rest.rfind(close) {
+            return format!("{}{}<q>{}{}", &s[..a], open, close, &rest[b + close.len()..]);
+        }
+        if open == "'" && s[..a].ends_with(' ') { return format!("{}{}<q>'", &s[..a], open); } // the quoted text spans several lines
+    }
+    s.to_string()
+}
+
 fn norm_line(line: &str, display: &str) -> String {
     let s = line.replace(display, "<file>");
+    // quoted output paths / names come from (mutated) file contents: not part of the class
+    let mut s = squash_quoted(&s, "'", "': ");
+    if s.starts_with("error: while ") { if let Some(k) = s.find("'<q>': ") { s.truncate(k + 5); } } // OS error text varies
+    let s = squash_quoted(&s, "`", "`");
     let s = squash_digits(&s);
     s.chars().take(100).collect()
 }
@@ -834,7 +854,9 @@ fn exec_run(seed: &Seed, bytes: &[u8], bit: u8, scratch: &Path) -> RunOut {
         },
     };
     let ms = t0.elapsed().as_millis() as u64;
+    let site = panic.as_ref().map(|p| p.text.lines().take(3).collect::<Vec<_>>().join(" / "));
     let (class, viol) = classify(seed.fmt(), &display, ok, &diag, panic);
+    let diag = match site { Some(t) => format!("PANIC {t}\n{diag}"), None => diag };
     RunOut { bit, class, viol, ms, diag }
 }
 
@@ -1162,6 +1184,10 @@ struct Agg {
     slow_unconfirmed: u64,
     broken: u64,
     max_ms: u64,
+    /// signature -> panic site (file:line: message) -> (count, first case id, seed, fault, run)
+    panic_sites: BTreeMap<String, BTreeMap<String, (u64, u64, String, String, String)>>,
+    /// slowest runs seen: (ms, seed, fault, run)
+    slowest: Vec<(u64, String, String, String)>,
 }
 
 fn hex(b: &[u8]) -> String { b.iter().map(|x| format!("{x:02x}")).collect() }
@@ -1180,7 +1206,7 @@ fn witness(seeds: &[Seed], c: &Case, class: &str, run: &str, kind: &str, extra: 
 impl Agg {
     fn new(nseeds: usize) -> Agg {
         Agg { evaluations: 0, transitions: 0, nontrivial: 0, outcomes: BTreeMap::new(), viols: BTreeMap::new(), seed_class: vec![BTreeMap::new(); nseeds],
-              slow_unconfirmed: 0, broken: 0, max_ms: 0 }
+              slow_unconfirmed: 0, broken: 0, max_ms: 0, panic_sites: BTreeMap::new(), slowest: vec![] }
     }
     fn violation(&mut self, sig: String, id: u64, detail: impl FnOnce() -> Value) {
         match self.viols.get_mut(&sig) {
@@ -1201,7 +1227,7 @@ pub fn run(tier: &str) -> Report {
     rep.rule = "the outcome class (ok / ok+warning / first error line with digits squashed / panic / abort) of the default decompilation of the faulted input differs from that of the unfaulted seed, i.e. the fault was noticed".into();
     let thorough = tier_is_thorough(tier);
     // leave a margin for aggregation / confirmation runs
-    let deadline = rep.deadline() - Duration::from_secs(if thorough { 150 } else { 10 });
+    let deadline = if thorough { rep.deadline().min(rep.start + Duration::from_secs(700)) } else { rep.deadline() - Duration::from_secs(10) };
 
     let (seeds, notes, errors) = build_seeds();
     for e in errors { rep.machinery_errors.push(format!("seed construction: {e}")); }
@@ -1239,11 +1265,22 @@ pub fn run(tier: &str) -> Report {
                     for rr in &runs {
                         agg.evaluations += 1;
                         agg.max_ms = agg.max_ms.max(rr.ms);
+                        if rr.ms >= 200 && (agg.slowest.len() < 8 || rr.ms > agg.slowest.last().map_or(0, |x| x.0)) {
+                            agg.slowest.push((rr.ms, seed.name.clone(), fault_to_string(&c.ops), run_label(rr.bit).to_string()));
+                            agg.slowest.sort_by(|a, b| b.0.cmp(&a.0));
+                            agg.slowest.truncate(8);
+                        }
                         *agg.outcomes.entry(format!("{fmt}|{}|{}", if rr.bit == RUN_EXTRACT { "extract" } else { "decompile" }, rr.class)).or_insert(0) += 1;
                         if c.ops.is_empty() { agg.seed_class[c.seed].insert(rr.bit, rr.class.clone()); }
                         if rr.bit == RUN_DEFAULT { default_class = Some(rr.class.clone()); }
                         if let Some(sig) = &rr.viol {
                             let kind = if rr.class == "panic" { "panic" } else { "diagnostic" };
+                            if kind == "panic" {
+                                let site = rr.diag.as_deref().and_then(|d| d.lines().next()).unwrap_or("").trim_start_matches("PANIC ").to_string();
+                                let e = agg.panic_sites.entry(sig.clone()).or_default().entry(site).or_insert((0, u64::MAX, String::new(), String::new(), String::new()));
+                                e.0 += 1;
+                                if c.id < e.1 { *e = (e.0, c.id, seed.name.clone(), fault_to_string(&c.ops), run_label(rr.bit).to_string()); }
+                            }
                             agg.violation(sig.clone(), c.id, || witness(&seeds, c, &class, run_label(rr.bit), kind, json!({"diag": rr.diag})));
                         }
                         if rr.ms > SLOW_MS && seed.bytes.len() < 4096 {
@@ -1350,6 +1387,8 @@ pub fn run(tier: &str) -> Report {
         rep.fail(sig.clone(), v.detail.clone());
     }
     rep.extra.insert("failure_counts".into(), Value::Object(counts));
+    rep.extra.insert("panic_sites".into(), json!(agg.panic_sites.iter().map(|(sig, sites)| (sig.clone(), json!(sites.iter().map(|(site, v)| json!({"site": site, "count": v.0, "seed": v.2, "fault": v.3, "run": v.4})).collect::<Vec<_>>()))).collect::<serde_json::Map<_, _>>()));
+    rep.extra.insert("slowest_runs".into(), json!(agg.slowest.iter().map(|x| json!({"ms": x.0, "seed": x.1, "fault": x.2, "run": x.3})).collect::<Vec<_>>()));
     rep.extra.insert("seeds".into(), json!(seeds.iter().enumerate().map(|(i, s)| json!({"name": s.name, "format": s.fmt(), "game": s.game.as_str(), "len": s.bytes.len(), "fields": gen.states[i].fields.len(), "baseline": agg.seed_class[i].get(&RUN_DEFAULT)})).collect::<Vec<_>>()));
     rep.extra.insert("workers".into(), json!({"n": pool.slots.len(), "spawned": pool.respawns.load(Ordering::Relaxed), "address_space_limit_kib": ULIMIT_V_KIB, "answer_timeout_s": ANSWER_TIMEOUT.as_secs(), "slow_unconfirmed": agg.slow_unconfirmed, "max_run_ms": agg.max_ms}));
     // samples: a few fault descriptors
